@@ -236,7 +236,7 @@ theorem Summary.load_save (io : FloatIO F) (law : FloatLaw io) (tab : SymTab) (s
     exact tail none
   | some b =>
     obtain ⟨hne, hsol, hfit, hacc⟩ := hb b rfl
-    simp only [Summary.load, Summary.save, P.bind_apply, List.append_assoc, List.cons_append,
+    simp only [Summary.load, Summary.save, hne, if_false, P.bind_apply, List.append_assoc, List.cons_append,
       List.nil_append]
     have h1 : ∀ rest, readU U32 ('1' :: '\n' :: rest) = some (1, '\n' :: rest) := by
       intro rest
